@@ -105,14 +105,14 @@ fn arg_val(args: &[String], name: &str) -> Option<String> {
 fn default_runs(prop: &str, thorough: bool) -> u64 {
     let (q, t) = match prop {
         "C15" => (60_000, 1_500_000),
-        "C03" => (12_000, 250_000),
-        "C04" => (3_000, 60_000),
-        "C06" => (8_000, 150_000),
-        "C07" => (4_000, 80_000),
-        "C14" => (6_000, 100_000),
-        "C17" => (6_000, 100_000),
-        "C18" => (3_000, 60_000),
-        "C19" => (4_000, 80_000),
+        "C03" => (6_000, 150_000),
+        "C04" => (4_000, 80_000),
+        "C06" => (12_000, 300_000),
+        "C07" => (2_500, 60_000),
+        "C14" => (3_500, 60_000),
+        "C17" => (6_000, 120_000),
+        "C18" => (1_200, 30_000),
+        "C19" => (6_000, 200_000),
         _ => (1_000, 10_000),
     };
     if thorough {
@@ -329,7 +329,7 @@ fn selfcheck_determinism(args: &[String], seed: u64, jobs: usize) -> i32 {
         let cfg2 = batch::BatchCfg { jobs: 5, ..batch::BatchCfg { prop: prop.to_string(), thorough: false, base_seed: seed, runs: n, jobs, max_secs: 3600, write_evidence: false, quiet: true } };
         let b = batch::run_batch(&ctx, &cfg2).digests;
         let exe = std::env::current_exe().unwrap();
-        let out = std::process::Command::new(exe).args(["digests", prop, "--seed", &seed.to_string(), "--runs", &n.to_string(), "--jobs", "1"]).output();
+        let out = std::process::Command::new(exe).args(["digests", prop, "--seed", &seed.to_string(), "--runs", &n.to_string(), "--jobs", "3"]).output();
         let c: Vec<(u64, u64)> = match out {
             Ok(o) => String::from_utf8_lossy(&o.stdout)
                 .lines()
@@ -342,7 +342,7 @@ fn selfcheck_determinism(args: &[String], seed: u64, jobs: usize) -> i32 {
         };
         let distinct: std::collections::HashSet<u64> = a.iter().map(|x| x.1).collect();
         let ok = a == b && a == c && a.len() as u64 == n;
-        println!("[selfcheck] determinism {}: {} run seeds x (2 in-process runs with 16/5 pool threads + 1 child process with 1 thread): {} ({} distinct digests)", prop, n, if ok { "identical" } else { "MISMATCH" }, distinct.len());
+        println!("[selfcheck] determinism {}: {} run seeds x (2 in-process runs with 16/5 pool threads + 1 child process with 3 pool threads): {} ({} distinct digests)", prop, n, if ok { "identical" } else { "MISMATCH" }, distinct.len());
         if !ok {
             bad += 1;
             for ((i, x), (_, y)) in a.iter().zip(b.iter()) {
